@@ -81,6 +81,50 @@ func firstDiffLine(a, b string) string {
 	return "?"
 }
 
+// runProgramReusingAnalysis: one analysis result, used for two compilations and VM runs and then for an
+// interpreter run (an analysis result is a value: using it twice is the same sources twice).
+func runProgramReusingAnalysis(p Program, prov Provider) []progOutcome {
+	a := Analyze(p, prov)
+	var outs []progOutcome
+	for k := 0; k < 3; k++ {
+		out := &Out{}
+		po := progOutcome{Syntax: strings.Join(a.Syntax, "\n"), Diags: strings.Join(a.Diags, "\n")}
+		func() {
+			defer func() {
+				if r := recover(); r != nil {
+					po.Panic = panicCategoryH(fmt.Sprint(r))
+				}
+			}()
+			if a.PanicMsg != "" || len(a.Syntax) > 0 || a.Errors > 0 {
+				return
+			}
+			if k < 2 {
+				co, err := Compile(a, p.Entry)
+				if err != nil {
+					po.Compile = err.Error()
+					return
+				}
+				ctx := NewCtx()
+				env := &vmEnv{prog: &compiled{an: a, out: co}, out: out, ctx: ctx, exec: NewVMExec(out), limits: generousLimits}
+				env.boot()
+				env.vm.SpawnAsync(runtime.MainFn(), nil, nil, nil)
+				num, i := env.vm.Wait()
+				o := classify(num, i)
+				po.Outcome, po.Msg = o.Kind, o.Msg
+			} else {
+				ctx := NewCtx()
+				ctxp, _ := ctx.AsContext()
+				i := hms.Run(2000, a.Modules, p.Entry, TreeExec{Out: out}, hms.TestingInterpreterScopeAdditions(), ctxp)
+				o := classifyTree(i)
+				po.Outcome, po.Msg = o.Kind, o.Msg
+			}
+		}()
+		po.Out = out.Text()
+		outs = append(outs, po)
+	}
+	return outs
+}
+
 // runProgram analyses, compiles and runs one program on one backend. It is
 // called from the host task of a simulation (or outside any, for filtering).
 func runProgram(p Program, backend int, prov Provider, out *Out) (po progOutcome) {
@@ -357,6 +401,29 @@ fn main() {
     let zero = [0, 1];
     zero[0] = zero[0] + 5;
     println(zero, 0, 1);
+}`)},
+	{"debug-after-nap", Single(`
+fn main() {
+    debug("start");
+    let acc = 0;
+    for i in 0..200 { acc = (acc + i * i) % 97; }
+    debug("after work", acc);
+    time.sleep(0.03);
+    debug("after the nap", 57);
+    println("done");
+}`)},
+	{"sort-with-ties", Single(`
+fn main() {
+    let nz = 0.0 * (0.0 - 1.0);
+    let fl = [3.5, 0.0, 2.0, nz, 1.0, 9.0, 8.0, nz, 7.0, 6.0, 0.0, 5.0, 4.0, 3.0, 2.5, 1.5, 0.5, 0.0, nz, 2.0, 2.0, 7.5, 6.5, 5.5];
+    fl.sort();
+    println(fl);
+    let il = [5, 3, 5, 1, 3, 9, 0, 0, 7, 7, 2, 8, 6, 4, 5, 3, 1, 9];
+    il.sort();
+    println(il);
+    let sl = ["b", "a", "b", "c", "a", "d", "aa", "ab", "a", "b", "c", "z", "y", "x", "a"];
+    sl.sort();
+    println(sl);
 }`)},
 	{"cast-two-wrong-fields", Single(`
 fn main() {
@@ -647,6 +714,34 @@ func runC14(t *testing.T, spec RunSpec) *Verdict {
 	if spec.P("first_in_process", 0) == 1 {
 		return runC14First(t, spec, p, backend)
 	}
+	if spec.P("reuse_analysis", 0) == 1 {
+		cell := p.name + ":one-analysis-used-three-times"
+		var outs []progOutcome
+		cfg := simConfig(spec.Sim)
+		cfg.TaskStepBudget = 3_000_000
+		res := simrt.Run(t, cfg, simSource(spec), func(s *simrt.Sim) {
+			s.SetDeadline("program-returns", 2*time.Hour)
+			outs = runProgramReusingAnalysis(p.prog, NewProvider(p.prog.Modules))
+			s.Settle(time.Second)
+		})
+		v.absorb(P, res)
+		if v.Class != "" || len(outs) != 3 {
+			// crashes and the like are judged by the ordinary runs
+			v.Class, v.Clause, v.Msg, v.Sig = "", "", "", ""
+			return v
+		}
+		if comp, det := diffOutcome(outs[1], outs[0]); comp != "" {
+			v.fail(P, "order-dependence", comp, cell, fmt.Sprintf("the second compilation and run of one analysis result differs from the first in %s: %s", comp, det))
+			return v
+		}
+		ib := c14Baseline(t, p, 1)
+		if ib.skip == "" && ib.po.Outcome != "crash" {
+			if comp, det := diffOutcome(outs[2], ib.po); comp != "" {
+				v.fail(P, "order-dependence", comp, cell, fmt.Sprintf("the interpreter, run on an analysis result that had been compiled before, differs from its baseline in %s: %s", comp, det))
+			}
+		}
+		return v
+	}
 	base := c14Baseline(t, p, backend, spec.P("cancel_at_write", 0))
 	if ca := spec.P("cancel_at_write", 0); ca > 0 {
 		cell += fmt.Sprintf(":cancelled-in-write-%d", ca)
@@ -876,6 +971,16 @@ func planC14(t *testing.T, tier string, seed uint64) ([]RunSpec, error) {
 						}
 					}
 				}
+				s.Seed = runSeed(seed, idx)
+				idx++
+				plan = append(plan, s)
+			}
+			if backend == 0 && pi < len(c14Targeted) && !readsClock(p.prog) {
+				s := RunSpec{Property: "C14", Workload: "c14/" + p.name + "/one-analysis-used-three-times", Params: map[string]int{"prog": pi, "backend": 0, "reuse_analysis": 1}}
+				s.Sim = swarm(seed, idx)
+				s.Sim.StepCostNs = 100
+				s.Sim.Quantum = nil
+				s.Sim.ClockJumps = false
 				s.Seed = runSeed(seed, idx)
 				idx++
 				plan = append(plan, s)
